@@ -287,6 +287,8 @@ def run(chk, parts=('L1', 'L2', 'L2b', 'L3')):
     # ---- L4 indentation accounting
     if 'L2' in parts:
         l4(chk, by)
+        l6(chk, by)
+        l7(chk, by)
     # ---- L3 indent / dedent pairing
     if 'L3' in parts:
         l3(chk, fns)
@@ -501,6 +503,125 @@ def l5(chk, by):
     # positive control: the call graph does see calls to Lexer::next where they exist (Lexer::lex drives the iterator)
     drivers = [nm for nm, g in by.items() for c in T.calls(g['body']) if c.get('k') in ('MCall', 'Call') and T.norm(T.callee(c) or '').endswith('::next') and nm == 'Lexer::lex']
     chk.count('drivers of the token iterator', len(drivers))
+
+
+def l6(chk, by):
+    rule = PREFIX + '-L6'
+    chk.rule(rule, 'text skipped without a token still moves the column: every Ok exit of Lexer::lex_multi_line_comment (after which lexing goes on in the same line) is preceded by '
+                   'an advance of col_token_starts by the characters consumed since the last line break; otherwise everything after `#[ .. ]#` on that line is reported too far left')
+    f = by.get('Lexer::lex_multi_line_comment')
+    if not chk.need(f is not None, 'Lexer::lex_multi_line_comment not found'):
+        return
+    exits = 0
+
+    def scan(block, advanced):
+        nonlocal exits
+        if block.get('k') != 'Block':
+            block = {'k': 'Block', 's': [], 'e': block}
+        adv = advanced
+        for st in T.stmts_of(block):
+            st = T.unsemi(st)
+            here = [n for n in T.walk(st) if n.get('k') in ('Ret',) and 'Ok' in T.show(n.get('x') or {})]
+            if st.get('k') == 'AssignOp' and 'col_token_starts' in T.show(st['x']) and st['op'] in ('+', '+='):
+                adv = T.show(st['y'])
+                continue
+            if st.get('k') == 'Ret' and 'Ok' in T.show(st.get('x') or {}):
+                exits += 1
+                if adv is None:
+                    chk.bad(rule, 'Lexer::lex_multi_line_comment', 'ok-exit-without-advance', 'lex_multi_line_comment returns Ok after consuming the comment without advancing col_token_starts: '
+                            'in `x = 1 #[ c ]#; print! foo` the caret for `foo` is 9 columns too far left', LEX, st.get('l'))
+                else:
+                    chk.ok(rule, ('exit', st.get('l')), sample='col_token_starts += %s; return Ok' % adv[:80])
+                continue
+            # descend into nested control flow with the current state
+            for n in T.children(st) if st.get('k') not in ('If', 'Match', 'Loop', 'Block') else [st]:
+                pass
+            for sub in _sub_blocks(st):
+                scan(sub, adv)
+        return adv
+
+    def _sub_blocks(n):
+        out = []
+        k = n.get('k')
+        if k == 'Block':
+            out.append(n)
+        elif k == 'If':
+            out.append(n['t'])
+            if 'e' in n:
+                out.append(n['e'])
+        elif k == 'Match':
+            for a in n['arms']:
+                out.append(a['b'])
+        elif k == 'Loop':
+            out.append(n['b'])
+        else:
+            for c in T.children(n):
+                if 'k' in c:
+                    out.extend(_sub_blocks(c))
+                else:
+                    for cc in T.children(c):
+                        out.extend(_sub_blocks(cc))
+        return out
+    scan(f['body'], None)
+    chk.need(exits >= 1, 'lex_multi_line_comment: no `return Ok(..)` exit found')
+
+
+def l7(chk, by):
+    rule = PREFIX + '-L7'
+    chk.rule(rule, 'a token that crosses a line break does not count the characters of its earlier lines into the column: wherever a Lexer method resets col_token_starts to 0 inside '
+                   'the loop that accumulates the text of a token (a String local later handed to emit_*_token), the same block clears the accumulator or records the split '
+                   '(token_line_start), and both emit functions subtract the recorded split from their advance')
+    sites = 0
+    for nm, f in sorted(by.items()):
+        # accumulators: String locals passed to an emit call
+        acc = set()
+        for c in T.calls(f['body']):
+            if c.get('k') == 'MCall' and c['n'] in ('emit_singleline_token', 'emit_multiline_token') and c['a']:
+                a = T.peel(c['a'][-1])
+                if a.get('k') == 'Local':
+                    acc.add(a['n'])
+        if not acc:
+            continue
+
+        def blocks(n, in_loop):
+            if n.get('k') == 'Loop':
+                # only loops that append to the accumulator: its text survives the line break
+                in_loop = in_loop or any(c.get('k') == 'MCall' and c['n'] in ('push', 'push_str') and T.peel(c['r']).get('n') in acc for c in T.calls(n))
+            if n.get('k') == 'Block' and in_loop:
+                yield n
+            for c in T.children(n):
+                if 'k' in c:
+                    yield from blocks(c, in_loop)
+                else:
+                    for cc in T.children(c):
+                        yield from blocks(cc, in_loop)
+        for b in blocks(f['body'], False):
+            sts = [T.unsemi(x) for x in T.stmts_of(b)]
+            resets = [x for x in sts if x.get('k') == 'Assign' and 'col_token_starts' in T.show(x['x']) and T.lit_int(T.peel(x['y'])) == 0]
+            if not resets:
+                continue
+            # does the accumulator survive the break?  (pushes before the loop or in it: any accumulator used in the function)
+            sites += 1
+            cleared = any(x.get('k') == 'MCall' and x['n'] == 'clear' and T.peel(x['r']).get('n') in acc for x in sts)
+            recorded = any(x.get('k') in ('Assign', 'AssignOp') and 'token_line_start' in T.show(x['x']) for x in sts)
+            key = '%s:reset#%d' % (nm, sites)
+            if cleared or recorded:
+                chk.ok(rule, key, sample='%s: %s' % (nm, 'accumulator cleared' if cleared else 'split recorded'))
+            else:
+                chk.bad(rule, nm, 'reset-without-split', '%s resets col_token_starts at a line break inside a token but keeps counting the characters accumulated before the break: after '
+                        '`x = """a\\nb"""` every later token on the closing line is reported too far right (past the end of the line)' % nm, LEX, resets[0].get('l'))
+    chk.floor(PREFIX + ' column resets inside accumulating token loops', sites, 4)
+    for nm in ('Lexer::emit_singleline_token', 'Lexer::emit_multiline_token'):
+        f = by.get(nm)
+        if not chk.need(f is not None, nm + ' not found'):
+            continue
+        adv = [n for n in T.walk(f['body']) if n.get('k') == 'AssignOp' and 'col_token_starts' in T.show(n['x'])]
+        env_txt = ' '.join(T.show(n) for n in T.walk(f['body']) if n.get('k') == 'Let')
+        uses = any('token_line_start' in T.show(n['y']) or any(l.get('k') == 'Local' and l['n'] in env_txt.split('token_line_start')[0].split('let ')[-1] for l in T.walk(n['y']) if 'token_line_start' in env_txt) for n in adv)
+        if adv and uses:
+            chk.ok(rule, nm)
+        else:
+            chk.bad(rule, nm, 'advance-ignores-split', '%s advances the column by the whole token text, ignoring the part that lies before the last line break inside the token' % nm, LEX, f.get('l'))
 
 
 def l4(chk, by):
